@@ -68,6 +68,12 @@ type Spec struct {
 	// Restart: after the pipestance has failed, remove the faults, start a new
 	// runtime on the same directory (as a restarted mrp does) and run again.
 	Restart bool `json:"restart"`
+	// Orphans: jobs that are running when mrp exits survive it and finish
+	// later, writing into their old attempt directory and journal name.
+	Orphans bool `json:"orphans"`
+	// Freeze: once the faulty job has ended no other job makes progress until
+	// mrp has noticed the failure and exited (so that jobs are still running then)
+	Freeze bool `json:"freeze"`
 }
 
 // Result is what a run reports besides its trace.
@@ -101,6 +107,7 @@ type job struct {
 	begun   bool
 	ended   bool
 	attempt int
+	inv2    *Inv
 }
 
 type Driver struct {
@@ -118,6 +125,8 @@ type Driver struct {
 	rng    *rand.Rand
 	script []string
 	scriptPos int
+	frozen    bool
+	frozenAt  int
 }
 
 type devNull struct{}
@@ -244,7 +253,7 @@ func (d *Driver) journal(j *job, name string) {
 	}
 	f := j.vj.JournalFile + "." + pre + name
 	writeFile(f, []byte("x"))
-	d.tr.Emit("JournalWrite", "job", j.key, "file", path.Base(f))
+	d.tr.Emit("JournalWrite", "job", j.key, "file", path.Base(f), "md", d.rel(j.vj.MetadataPath))
 }
 
 func readJSON(p string) (interface{}, error) {
@@ -342,6 +351,10 @@ func (d *Driver) end(j *job) {
 		outcome = fault
 	}
 	d.res.Ended[j.key] = outcome
+	if fault != "" && (d.spec.Freeze || d.spec.Orphans) {
+		d.frozen = true
+		d.frozenAt = d.res.Iter
+	}
 	d.tr.Emit("StageEnd", "job", j.key, "outcome", outcome, "attempt", j.attempt)
 	switch fault {
 	case "":
@@ -400,6 +413,14 @@ func (d *Driver) envActions() []string {
 	d.mu.Lock()
 	defer d.mu.Unlock()
 	var acts []string
+	if d.frozen {
+		// mrp notices a failed fork only once the forks before it are done: do
+		// not hold the other jobs back for ever
+		if d.res.Iter-d.frozenAt < 5 {
+			return nil
+		}
+		d.frozen = false
+	}
 	for i, j := range d.jobs {
 		if j.ended {
 			continue // finished, or died with a previous mrp
@@ -507,6 +528,11 @@ func Run(spec *Spec, workdir string) (res *Result) {
 		d.mu.Lock()
 		for _, j := range d.jobs {
 			if !j.ended {
+				if j.begun && spec.Orphans {
+					j.key = j.key + "#orphan" // finishes later, in its old directory
+					j.inv2 = j.inv
+					continue
+				}
 				j.ended = true
 				if j.begun {
 					d.tr.Emit("StageKilled", "job", j.key)
@@ -516,6 +542,12 @@ func Run(spec *Spec, workdir string) (res *Result) {
 		d.mu.Unlock()
 		time.Sleep(20 * time.Millisecond) // let asynchronous cleanup goroutines of the old runtime end
 		spec.Faults = nil
+		d.frozen = false
+		if spec.Orphans {
+			// a restarted mrp is another process at another time: let the
+			// uniquifier (pid + seconds) of the new attempts differ
+			time.Sleep(1100 * time.Millisecond)
+		}
 		d.tr.Emit("Restart")
 		d.script = append(d.script, "RESTART")
 		rt2, err := core.VerifNewRuntime(&opts, 4, 4, "/nonexistent/mrjob", "/nonexistent/adapters", d.exec)
